@@ -145,6 +145,33 @@ fn suffix(w0: &World, slow_snap: bool, ctx: &mut Ctx) -> Outcome {
         ));
     }
     let li = leaders[0];
+    // replication must not depend on further proposals: every running member of the leader's
+    // configuration already holds the leader's log and commit index
+    {
+        let lr = &w.live(li).unwrap().rn;
+        let lconf = RefConf::from_cs(&lr.raft.prs().conf().to_conf_state());
+        let (llast, lterm, lcommit) = (lr.raft.raft_log.last_index(), lr.raft.raft_log.last_term(), lr.raft.raft_log.committed);
+        for i in 0..n {
+            let id = i as u64 + 1;
+            let Some(l) = w.live(i) else { continue };
+            if !lconf.members().contains(&id) {
+                continue;
+            }
+            let rl = &l.rn.raft.raft_log;
+            if rl.last_index() != llast || rl.last_term() != lterm || rl.committed != lcommit {
+                return Outcome::Failed(format!(
+                    "before any further proposal, member {} did not converge to the leader {} (last {} term {} commit {}) after {} fault-free rounds\n{}",
+                    id,
+                    li + 1,
+                    llast,
+                    lterm,
+                    lcommit,
+                    rounds,
+                    w.describe()
+                ));
+            }
+        }
+    }
     let before = w.live(li).unwrap().rn.raft.raft_log.last_index();
     if !w.apply(&Action::Propose(li as u8 + 1, 0), ctx) {
         return Outcome::Dead;
